@@ -141,7 +141,7 @@ def run_op(opname, fixture, plan, do_post=False):
     """Run one operation under a fault plan. plan: list of (k, action[, target]) relative to the op's trace."""
     env = setup()
     ps, vkernel = env["ps"], env["vkernel"]
-    t, pid = env["fixtures"].rich_table(zombie=(fixture == "zombie"))
+    t, pid = env["fixtures"].rich_table(zombie=(fixture == "zombie"), kthread=(fixture == "kthread"))
     vk = vkernel.VK()
     vk.table = t
     vk.mount("/vproc", t)
@@ -229,7 +229,11 @@ def judge(opname, fixture, plan, out, pid, clean_value, acc):
         exc = val.split(":")[0]
         site = out["fired"][-1][3] if out["fired"] else "nofault"
         site = re.sub(r"\d+", "N", site.replace("/vproc/", ""))
-        viols.append((f"leak:{exc}:{opname}", desc + f" site={site}"))
+        mech = f"leak:{exc}:{opname}"
+        if out["fired"] and out["fired"][-1][2] in ("lstat",) and out["fired"][-1][1] in ("EACCES", "EPERM") and site == "N":
+            # the refused access is the lstat() of the /proc/<pid> directory itself (os.path.lexists swallows the refusal)
+            mech += ":procdir_lstat_refused"
+        viols.append((mech, desc + f" site={site}"))
         return viols
     if kind == "TimeoutExpired":
         if opname != "wait0":
@@ -242,12 +246,12 @@ def judge(opname, fixture, plan, out, pid, clean_value, acc):
         if own_targets and val != pid:
             viols.append((f"wrong_pid_in_error:{opname}", desc))
         if not fired_actions:
-            if fixture == "live":
+            if fixture in ("live", "kthread"):
                 viols.append((f"error_without_fault:{kind}:{opname}", desc))
             elif kind == "AccessDenied" or (kind == "NoSuchProcess"):
                 viols.append((f"error_without_fault:{kind}:{opname}", desc))
             return viols
-        if fixture == "live" and own_targets and len(plan) == 1:
+        if fixture in ("live", "kthread") and own_targets and len(plan) == 1:
             a = fired_actions[0]
             if a in ("EACCES", "EPERM") and kind != "AccessDenied":
                 if "PID has been reused" in out.get("msg", ""):
@@ -258,7 +262,7 @@ def judge(opname, fixture, plan, out, pid, clean_value, acc):
                 viols.append((f"vanish_gives_{kind}:{opname}", desc))
             if a == "zombify" and kind == "AccessDenied":
                 viols.append((f"zombify_gives_{kind}:{opname}", desc))
-        if fixture == "live" and not own_targets and len(plan) == 1:
+        if fixture in ("live", "kthread") and not own_targets and len(plan) == 1:
             # a relative vanished/zombified: the caller itself is alive and well
             denied = fired_actions[0] in ("EACCES", "EPERM")
             if denied and kind == "AccessDenied":
@@ -309,7 +313,7 @@ def cases_for(opname, fixture, tier):
     plans = []
     own = [k for k, (kind, path) in enumerate(trace) if faultable(kind, path, pid)]
     n = len(trace)
-    if fixture == "live":
+    if fixture in ("live", "kthread"):
         for k in range(n):
             plans.append([(k, "vanish")])
             plans.append([(k, "zombify")])
@@ -444,8 +448,8 @@ def run_shimdiff(acc):
 def plan(tier, seed):
     names = [n for n, _ in ops_names()]
     shards = [dict(kind="shimdiff")]
-    for fixture in ("live", "zombie"):
-        for chunk in range(0, len(names), 4):
+    for fixture in ("live", "zombie", "kthread"):
+        for chunk in range(0, len(names), 4 if fixture != "kthread" else 8):
             shards.append(dict(kind="enum", fixture=fixture, ops=names[chunk:chunk + 4], tier=tier))
     return shards
 
